@@ -217,6 +217,12 @@ func normalisePackage(pkgPath string, loadPkgs func(...string) ([]*packages.Pack
 				why = "x/tools inliner would wrap the helper in a function literal"
 			default:
 				newContent = out.Content
+				if d, derr := simplifyDerefAddr(fname, newContent); derr == nil {
+					newContent = d
+				}
+				if d, derr := dropSelfShadow(fname, newContent); derr == nil {
+					newContent = d
+				}
 			}
 		} else {
 			why = err.Error()
@@ -231,6 +237,15 @@ func normalisePackage(pkgPath string, loadPkgs func(...string) ([]*packages.Pack
 					out, serr = h, nil
 				} else {
 					serr = fmt.Errorf("%v; hoisting: %v", serr, herr)
+				}
+			}
+			if serr != nil && strings.Contains(serr.Error(), "*ast.DeferStmt") {
+				// `defer H(&flag)`: wrap the call in a literal (`defer func() { H(&flag) }()`) when its operands mean the
+				// same at function exit as at the defer statement; the next iteration inlines the call inside
+				if h, herr := deferWrap(p, cd.file, cd.call, content); herr == nil {
+					out, serr = h, nil
+				} else {
+					serr = fmt.Errorf("%v; wrapping the deferred call: %v", serr, herr)
 				}
 			}
 			if serr != nil {
@@ -370,8 +385,123 @@ func processInlined(fname string, src []byte) ([]byte, error) {
 	if err != nil {
 		return nil, err
 	}
+	if d, derr := simplifyDerefAddr(fname, fixed); derr == nil {
+		fixed = d
+	}
+	if d, derr := dropSelfShadow(fname, fixed); derr == nil {
+		fixed = d
+	}
 	if flat, ferr := flattenBlocks(fname, fixed); ferr == nil {
 		return flat, nil
 	}
 	return fixed, nil
+}
+
+// simplifyDerefAddr rewrites `*(&x)` (what substituting the argument `&x` for a pointer parameter leaves behind) to `x`.
+func simplifyDerefAddr(fname string, src []byte) ([]byte, error) {
+	fset := token.NewFileSet()
+	f, err := parser.ParseFile(fset, fname, src, parser.ParseComments)
+	if err != nil {
+		return nil, err
+	}
+	var edits []textEdit
+	off := func(p token.Pos) int { return fset.Position(p).Offset }
+	ast.Inspect(f, func(n ast.Node) bool {
+		st, ok := n.(*ast.StarExpr)
+		if !ok {
+			return true
+		}
+		if u, ok := ast.Unparen(st.X).(*ast.UnaryExpr); ok && u.Op == token.AND {
+			if id, ok := ast.Unparen(u.X).(*ast.Ident); ok {
+				edits = append(edits, textEdit{off(st.Pos()), off(st.End()), id.Name})
+				return false
+			}
+		}
+		return true
+	})
+	if len(edits) == 0 {
+		return src, nil
+	}
+	return applyEdits(src, edits), nil
+}
+
+// dropSelfShadow removes `var x T = x` (the copy the x/tools inliner makes of an argument that has the parameter's
+// name) when nothing from that declaration to the end of the enclosing function writes to a variable called x or
+// takes its address: the copy and the original then always hold the same value, and dropping the copy keeps the
+// identity of the variable visible to the rules.
+func dropSelfShadow(fname string, src []byte) ([]byte, error) {
+	fset := token.NewFileSet()
+	f, err := parser.ParseFile(fset, fname, src, parser.ParseComments)
+	if err != nil {
+		return nil, err
+	}
+	off := func(p token.Pos) int { return fset.Position(p).Offset }
+	var edits []textEdit
+	for _, d := range f.Decls {
+		fd, ok := d.(*ast.FuncDecl)
+		if !ok || fd.Body == nil {
+			continue
+		}
+		ast.Inspect(fd.Body, func(n ast.Node) bool {
+			ds, ok := n.(*ast.DeclStmt)
+			if !ok {
+				return true
+			}
+			gd, ok := ds.Decl.(*ast.GenDecl)
+			if !ok || gd.Tok != token.VAR || len(gd.Specs) != 1 {
+				return true
+			}
+			vs, ok := gd.Specs[0].(*ast.ValueSpec)
+			if !ok || len(vs.Names) != 1 || len(vs.Values) != 1 {
+				return true
+			}
+			id, ok := ast.Unparen(vs.Values[0]).(*ast.Ident)
+			if !ok || id.Name != vs.Names[0].Name || id.Name == "_" {
+				return true
+			}
+			name := id.Name
+			written := false
+			ast.Inspect(fd.Body, func(m ast.Node) bool {
+				if m == nil || written {
+					return false
+				}
+				if m.End() <= ds.End() {
+					return true // may contain later nodes only if it spans the declaration; leaves before it are skipped below
+				}
+				isName := func(e ast.Expr) bool {
+					x, ok := ast.Unparen(e).(*ast.Ident)
+					return ok && x.Name == name && x.Pos() > ds.End()
+				}
+				switch x := m.(type) {
+				case *ast.AssignStmt:
+					for _, l := range x.Lhs {
+						if isName(l) {
+							written = true
+						}
+					}
+				case *ast.IncDecStmt:
+					if isName(x.X) {
+						written = true
+					}
+				case *ast.UnaryExpr:
+					if x.Op == token.AND && isName(x.X) {
+						written = true
+					}
+				case *ast.RangeStmt:
+					if (x.Key != nil && isName(x.Key)) || (x.Value != nil && isName(x.Value)) {
+						written = true
+					}
+				}
+				return true
+			})
+			if !written {
+				edits = append(edits, textEdit{off(ds.Pos()), off(ds.End()), ""})
+			}
+			return true
+		})
+	}
+	if len(edits) == 0 {
+		return src, nil
+	}
+	return applyEdits(src, edits), nil
 }
